@@ -532,7 +532,9 @@ func (c *Client) doRountrip(ctx context.Context, msg *kmip.RequestMessage) (*kmi
 	if c.closed.Load() {
 		return nil, net.ErrClosed
 	}
-	if cn := c.conn.Load(); cn == nil {
+	// Connect if there is no connection, or if the connection is dead (its context is done) without
+	// having been closed by the user: whatever killed it, this call starts on a fresh one.
+	if cn := c.conn.Load(); cn == nil || (cn.ctx.Err() != nil && !cn.closed.Load()) {
 		if err := c.reconnect(ctx); err != nil {
 			return nil, err
 		}
